@@ -353,8 +353,9 @@ class WebSocketApp:
 
             self._stop_ping_thread()
             self.keep_running = False
-            if self.sock:
-                self.sock.close()
+            sock = self.sock
+            if sock:
+                sock.close()
             close_status_code, close_reason = self._get_close_args(
                 close_frame if close_frame else None
             )
